@@ -280,15 +280,28 @@ def close(a, b, tol=1e-9):
     return abs(a - b) <= tol * max(abs(a), abs(b))
 
 
+def full_oscillations(c, o):
+    """Number of full oscillations of the band-passed signal (reference kernel, inside the unpadded stretch):
+    same-direction zero crossings minus one. C01 quantifies over signals with at least three."""
+    rf = o['ref']
+    n, padn = len(c['sig']), rf['padn']
+    bits = [(rf['pos'] >> i) & 1 for i in range(padn, min(padn + n, rf['npos']))]
+    rises = sum(1 for a, b in zip(bits, bits[1:]) if not a and b)
+    decays = sum(1 for a, b in zip(bits, bits[1:]) if a and not b)
+    return max(rises, decays) - 1
+
+
 def oracle_structure(c, o):
     """C01: table instead of raising; ordering, bounds, tiling, alternation."""
     if 'skip' in o:
         return None
-    if 'err' in o:
-        return 'raised %sError (%s) instead of returning a table' % (o['err'], o.get('errmsg', ''))
-    rows = o['rows']
-    if not rows:
+    if 'err' in o or not o['rows']:
+        if full_oscillations(c, o) < 3:
+            return None      # outside the property's domain: fewer than three full oscillations in the band-passed signal
+        if 'err' in o:
+            return 'raised %sError (%s) instead of returning a table' % (o['err'], o.get('errmsg', ''))
         return 'empty table'
+    rows = o['rows']
     n = len(c['sig'])
     b = resolved(c)['boundary']
     peak = c['center'] == 'peak'
@@ -557,4 +570,6 @@ def nontrivial_table(c, o, need_labels=False):
 
 
 def kind_of(c, o):
+    if 'err' in o and 'ref' in o:
+        return c['kind'] + ('/err-fewer-than-3-oscillations' if full_oscillations(c, o) < 3 else '/err')
     return c['kind'] + ('/skip' if 'skip' in o else '/err' if 'err' in o else '')
